@@ -9,6 +9,7 @@
 #ifndef PYTYPE_TYPEGRAPH_TYPEGRAPH_H_
 #define PYTYPE_TYPEGRAPH_TYPEGRAPH_H_
 
+#include <algorithm>
 #include <cstddef>
 #include <functional>
 #include <memory>
@@ -224,12 +225,26 @@ typedef std::set<const CFGNode*, pointer_less<CFGNode>> CFGNodeSet;
 // SourceSet to create z.
 typedef std::set<Binding*, pointer_less<Binding>> SourceSet;
 
+// std::set<SourceSet> would order source sets by comparing the Binding*
+// *addresses* lexicographically, so the order in which an origin's source sets
+// are iterated (by the solver, and by Python code via Origin.source_sets) would
+// depend on heap layout. Compare the underlying bindings (i.e., their ids)
+// instead, like pointer_less does for the other containers.
+struct SourceSetLess {
+  bool operator()(const SourceSet& a, const SourceSet& b) const {
+    return std::lexicographical_compare(a.begin(), a.end(), b.begin(), b.end(),
+                                        pointer_less<Binding>());
+  }
+};
+
+typedef std::set<SourceSet, SourceSetLess> SourceSetSet;
+
 // An "origin" is an explanation of how a binding was constructed. It consists
 // of a CFG node and a set of sourcesets.
 struct Origin {
   CFGNode* where = nullptr;
 
-  std::set<SourceSet> source_sets;
+  SourceSetSet source_sets;
 
   explicit Origin(CFGNode* where) { this->where = where; }
 
